@@ -724,7 +724,7 @@ func checkVerifyBody(p *Prog, r *Report, kp func(string, string) string, v *ssa.
 	}
 	nTrue := 0
 	for i, ret := range returnsOf(v) {
-		okv, isConst := ret.Results[1].(*ssa.Const)
+		okv, isConst := asConst(ret.Results[1])
 		if isConst && okv.Value != nil && okv.Value.String() == "false" {
 			continue
 		}
